@@ -10,7 +10,7 @@ func OpenCoroutine(L *LState) int {
 var coFuncs = map[string]LGFunction{
 	"create":  coCreate,
 	"yield":   coYield,
-	"resume":  coResume,
+	"resume":  coResumePlain,
 	"running": coRunning,
 	"status":  coStatus,
 	"wrap":    coWrap,
@@ -114,13 +114,23 @@ func coStatus(L *LState) int {
 }
 
 func wrapaux(L *LState) int {
-	L.Insert(L.ToThread(UpvalueIndex(1)), 1)
+	th := L.ToThread(UpvalueIndex(1))
+	// how results and errors are delivered depends on how the coroutine is resumed this time, not on how
+	// it was created
+	th.wrapped = true
+	L.Insert(th, 1)
+	return coResume(L)
+}
+
+// coResumePlain is coroutine.resume: results are prefixed with true, errors returned as (false, value), also
+// for a thread that was created by coroutine.wrap and is resumed through its handle.
+func coResumePlain(L *LState) int {
+	L.CheckThread(1).wrapped = false
 	return coResume(L)
 }
 
 func coWrap(L *LState) int {
 	coCreate(L)
-	L.CheckThread(L.GetTop()).wrapped = true
 	v := L.Get(L.GetTop())
 	L.Pop(1)
 	L.Push(L.NewClosure(wrapaux, v))
